@@ -130,8 +130,12 @@ def plan(ctx):
     THOROUGH[0] = ctx.thorough
     cfgs = catalogue(ctx.thorough)
     units = []
-    for k in range(0, len(cfgs), 6):
-        units.append(('explore', cfgs[k:k + 6]))
+    big = [c for c in cfgs if len(c['W']) >= 5]
+    small = [c for c in cfgs if len(c['W']) < 5]
+    for c in big:                       # n! menus per sweep: one configuration per unit, scheduled first
+        units.append(('explore', [c]))
+    for k in range(0, len(small), 6):
+        units.append(('explore', small[k:k + 6]))
     nu = 5 if ctx.thorough else 4
     nd = 4 if ctx.thorough else 3
     for n in range(2, nu + 1):
@@ -146,6 +150,10 @@ def plan(ctx):
     for (a, b) in ss.ranges(tot, 16):
         units.append(('det_sign', 4, a, b))
     return units
+
+
+def unit_cost(unit):
+    return max(len(c['W']) for c in unit[1]) if unit[0] == 'explore' else 0
 
 
 def check_pair(t, cfg, ci, q, case_fn, label=''):
